@@ -190,7 +190,7 @@ def main():
                          % (r['verdict'], 'accept' if r['model'] else 'reject', sh, json.dumps(r['cfg'], sort_keys=True)))
         chk.sample({'level': case['level'], 'edits': case['edits'], 'document': sh,
                     'observed': [(json.dumps(r['cfg'], sort_keys=True), r['verdict']) for r in out['cfg']]}, limit=6)
-    if nacc == 0:
+    if nacc == 0 and not chk.violations:
         raise fw.Machinery('nothing was accepted: templates broken')
     chk.cov['tool_verdicts_cross_checked'] = tool_checked
     chk.cov['rule'] = ('documents of SigDoc.tla (7 nodes; attacker edits: forge content, change/duplicate/remove ID, move, insert '
